@@ -67,6 +67,12 @@ CHECKS['C04'] = dict(
     text='Per (p,q,n) cell (quick: 5^3 boundary cells, thorough: all 19^3) and operand form (Decimal/Decimal, Decimal/int, int/Decimal, int/int): n > 18 is rejected; zero divisor panics; the result is the single term Rnd[thread](exact rational) at scale exactly n (exact product at p+q when n >= p+q; (0,0) for zero operands); failures only as the rounded value exceeding i128. quantize is div_rounded(q,0)*q by shape. Category is "other" rather than proof because one open known finding remains (int/int div_rounded accepts n > 18; the repository\'s own test relies on it).' + MODULO,
     note=TB + 'contract U; the sticky-bit lemma of DESIGN.md (used to compare the repaired p > n+q overflow branch with the oracle).')
 
+CHECKS['C10'] = dict(
+    category='proof', design_ref='DESIGN.md section 5 C10, Appendix A.6',
+    technique=ABSINT + ' (loop of the stepwise remainder unrolled by path forking, at most 18 rounds); R-FWD',
+    text='Per scale pair (quick: 6x6 boundary pairs, thorough: all 361) x sign class of the dividend, Decimal and integer forms: zero divisor <=> DivisionByZero / None; every returned (r,f) has f <= max(p,q) and, with both operands re-expressed at scale max(p,q), x - r is an integer multiple of y as polynomials (using the equalities the path recorded), |r| < |y|, r zero or of the sign of x - which characterises the truncated remainder uniquely; the only other failure is the overflow signal of the stepwise loop, reachable only when p < q and 10^(q-p) x overflows; checked_rem has no panic edge. No summary and no lemma is needed (only truncating-division terms occur).',
+    note=TB + 'A defect found here (i128::MIN % -1 panics) is repaired by a fix: commit.')
+
 NOT_APPLICABLE = {
     'C07': 'Display/parse round trip is a value-level property of run-time digit strings across two algorithms (core::fmt and a byte parser); no structural clause that is both necessary and checkable without executing or symbolically solving; see DESIGN.md section 7.',
     'C12': 'Bit-exact float rounding of Decimal -> f64/f32 over 2^127 x 19 inputs: no sound static abstract domain in reach relates the produced bit pattern to the nearest float; see DESIGN.md section 7.',
